@@ -200,6 +200,7 @@ class Reader(BaseValidator):
         self._validate_until = validate_until
         self.accepted_rows_count = None
         self.rejected_rows_count = None
+        self._has_reset_checks = False
 
     @property
     def on_error(self):
@@ -240,6 +241,7 @@ class Reader(BaseValidator):
         self.rejected_rows_count = 0
         for check in self.cid.check_map.values():
             check.reset()
+        self._has_reset_checks = True
         header_row_count = self._cid.data_format.header
         for row_count, row in enumerate(self._raw_rows(), 1):
             try:
@@ -259,6 +261,16 @@ class Reader(BaseValidator):
                 else:
                     assert self.on_error == "continue"
             self._location.advance_line()
+
+    def close(self):
+        if not self._is_closed and not self._has_reset_checks:
+            # ``rows()`` is a generator, so nothing has been reset yet in case no
+            # row was ever requested (for example ``validate(..., validate_until=0)``).
+            # The checks at the end must not see what the CID was used for before.
+            for check in self.cid.check_map.values():
+                check.reset()
+            self._has_reset_checks = True
+        super().close()
 
     def validate_rows(self):
         """
